@@ -87,6 +87,8 @@ def tobool(v):
         return z3.BoolVal(v)
     if isinstance(v, NpInt):
         return v.value != 0
+    if isinstance(v, DictV):
+        return v.order.n > 0          # a dict is true exactly when it has a key
     if z3.is_expr(v) and z3.is_bool(v):
         return v
     if z3.is_expr(v) and z3.is_int(v):
